@@ -312,7 +312,10 @@ pub fn dir_slots(img: &Image, g: &Geom, fat: &FatView, loc: DirLoc) -> (Vec<Slot
     let mut slots = Vec::new();
     match loc {
         DirLoc::Fat16Root => {
-            let mut left = g.root_entries;
+            // The root region is RootDirSectors whole sectors (fatgen103 rounds up); an entry count that is
+            // not a multiple of 16 leaves a few slots in the last sector whose status the specification does
+            // not settle. They are taken as part of the directory (sector-granular reading).
+            let mut left = g.root_dir_sectors * 16;
             for i in 0..g.root_dir_sectors {
                 let blk = g.root_dir_start + i;
                 let b = img.get(blk);
